@@ -3,7 +3,7 @@
    sequence of API calls per thread, both _preferWriters settings, timeouts firing at any decision). *)
 From Coq Require Import List Arith Bool.
 Import ListNotations.
-From Muscle Require Import Conc.RwMutexModel Conc.RwMutexProofs Conc.RwMutexInv Conc.RwMutexThms.
+From Muscle Require Import Conc.RwMutexModel Conc.RwMutexProofs Conc.RwMutexInv Conc.RwMutexThms Conc.RwMutexLive Conc.RwMutexExtras Conc.RwMutexCheck.
 
 (* The inductive invariant: read mode / write mode of the table + every thread's code position agrees with the tables. *)
 Theorem C18_invariant : forall pref s, reachable pref s -> inv s.
@@ -87,6 +87,85 @@ Theorem C18_rw_readers_share : forall pref t d g l, l_act l = AEnterRO d -> l_st
 Proof. exact readers_share. Qed.
 Print Assumptions C18_rw_readers_share.
 
+(* the hand-off invariant behind "no lost wake-up": whenever nobody holds the lock, the waiters the hand-off policy favours
+   (writer preference: the first waiting writer, else all waiting readers; no preference: all waiting readers, else the first
+   waiting writer) have a notification pending or have already returned from Wait() *)
+Theorem C18_rw_handoff_invariant : forall pref s, reachable pref s -> J pref s.
+Proof. exact J_reachable. Qed.
+Print Assumptions C18_rw_handoff_invariant.
+
+(* rw_no_lost_wakeup (safety form): nobody holds the lock and somebody waits ==> a waiting thread has an enabled transition *)
+Theorem C18_rw_no_lost_wakeup : forall pref s, reachable pref s -> g_exec (s_g s) = [] ->
+  (g_wr (s_g s) <> [] \/ g_ww (s_g s) <> []) ->
+  exists t, (memk t (g_wr (s_g s)) = true \/ memk t (g_ww (s_g s)) = true) /\
+            step pref t CRun (s_g s) (s_l s t) <> None.
+Proof. exact no_lost_wakeup. Qed.
+Print Assumptions C18_rw_no_lost_wakeup.
+
+(* no deadlock among threads that use only this lock (safety form): if NO transition of any thread is enabled while somebody
+   waits, then some thread that is outside any call holds the lock -- the waiters wait for a holder that has not released,
+   never for a lost wake-up.  ("If every holder eventually releases, every waiting thread eventually acquires", minus fairness.) *)
+Theorem C18_rw_no_stranding : forall pref s, reachable pref s ->
+  (forall t c, step pref t c (s_g s) (s_l s t) = None) ->
+  (g_wr (s_g s) <> [] \/ g_ww (s_g s) <> []) ->
+  exists h e, find h (g_exec (s_g s)) = Some e /\ l_act (s_l s h) = AIdle.
+Proof. exact no_stranding. Qed.
+Print Assumptions C18_rw_no_stranding.
+
+(* rw_writer_pref / writer FIFO: every way a thread that holds nothing can come to hold the lock.  As a reader: only with no
+   write recursion anywhere and, under writer preference, only while NO writer is waiting (so a reader that arrives after a
+   waiting writer cannot be admitted before that writer left the queue).  As a writer: only when nobody executes and it is
+   the first waiting writer (or none waits). *)
+Theorem C18_rw_writer_pref : forall pref t g l g' l' o e,
+  step pref t CRun g l = Some (g', l', o) -> find t (g_exec g) = None -> find t (g_exec g') = Some e ->
+  (e = mkEnt 1 0 /\ g_total g = 0 /\ (pref = true -> g_ww g = [])) \/
+  (e = mkEnt 0 1 /\ g_exec g = [] /\ (g_ww g = [] \/ exists c r, g_ww g = (t, c) :: r)).
+Proof. exact admission. Qed.
+Print Assumptions C18_rw_writer_pref.
+
+(* ... and system-wide: with preference on, while ANY writer waits, no transition of any thread turns a thread that holds
+   nothing into a reader (only into a writer): readers arriving after a waiting writer do not overtake it *)
+Theorem C18_rw_writer_pref_sys : forall s lab s' o w,
+  sys_step true s lab = Some (s', o) -> memk w (g_ww (s_g s)) = true ->
+  forall r e, find r (g_exec (s_g s)) = None -> find r (g_exec (s_g s')) = Some e -> e = mkEnt 0 1.
+Proof. exact writer_pref_sys. Qed.
+Print Assumptions C18_rw_writer_pref_sys.
+
+(* the hand-off is effective: the favoured waiter, once it has returned from Wait(), is admitted by its next critical section
+   if nobody took the lock in between *)
+Theorem C18_rw_handoff_admits_writer : forall pref s, reachable pref s -> g_exec (s_g s) = [] ->
+  forall h c r d, g_ww (s_g s) = (h, c) :: r -> l_act (s_l s h) = AWokeRW d true ->
+  exists g' l' o, step pref h CRun (s_g s) (s_l s h) = Some (g', l', o) /\ find h (g_exec g') = Some (mkEnt 0 1) /\ memk h (g_ww g') = false.
+Proof. exact handoff_admits_writer. Qed.
+Print Assumptions C18_rw_handoff_admits_writer.
+
+Theorem C18_rw_handoff_admits_reader : forall pref s, reachable pref s -> g_exec (s_g s) = [] -> (pref = true -> g_ww (s_g s) = []) ->
+  forall k d, l_act (s_l s k) = AWokeRO d true ->
+  exists g' l' o, step pref k CRun (s_g s) (s_l s k) = Some (g', l', o) /\ find k (g_exec g') = Some (mkEnt 1 0) /\ memk k (g_wr g') = false.
+Proof. exact handoff_admits_reader. Qed.
+Print Assumptions C18_rw_handoff_admits_reader.
+
+(* the model's lists are faithful images of the Hashtables: no thread appears twice in a table *)
+Theorem C18_rw_tables_nodup : forall pref s, reachable pref s -> nodup (s_g s).
+Proof. exact nodup_reachable. Qed.
+Print Assumptions C18_rw_tables_nodup.
+
+(* the error returns inside the upgrade path that the model does not follow are dead: the inner UnlockReadOnly() and
+   LockReadOnly() calls always return B_NO_ERROR *)
+Theorem C18_rw_upgrade_inner_calls_succeed : forall pref s, reachable pref s -> forall t f k g' ns st,
+  l_stk (s_l s t) = f :: k -> (match f with FInner _ => False | _ => True end) ->
+  cs pref t (l_act (s_l s t)) (s_g s) = Some (g', ns, Done st) -> st = SOk.
+Proof. exact upgrade_inner_calls_succeed. Qed.
+Print Assumptions C18_rw_upgrade_inner_calls_succeed.
+
+(* the executable invariant check the model driver evaluates on every state of every replayed trace can only fail on a
+   state that is not reachable in the model *)
+Theorem C18_rw_check_complete : forall pref s tids, reachable pref s ->
+  (forall t, memk t (g_wr (s_g s)) = true \/ memk t (g_ww (s_g s)) = true -> In t tids) ->
+  check_state pref s tids = true.
+Proof. exact check_state_complete. Qed.
+Print Assumptions C18_rw_check_complete.
+
 (* known finding F22, stated in the model: a TIMED LockReadWrite() on the upgrade path can be parked where no timeout can fire *)
 Theorem C18_timed_upgrade_refuted : forall pref,
   exists s, reachable pref s /\ l_op (s_l s 0) = Some (OLockRW Timed) /\ l_act (s_l s 0) = AParkRO Never /\
@@ -133,5 +212,54 @@ Example C18_ex_timed :
 Proof.
   destruct (run true [B 0 (OLockRW Never); R 0; B 1 (OLockRO Timed); R 1; B 2 (OLockRW Timed); R 2; T 2] sys0) as [s|] eqn:E.
   - exists s. split; [eapply run_reachable; [apply reach_init|exact E]|]. vm_compute in E. inversion E; subst. vm_compute. auto 10.
+  - vm_compute in E. discriminate.
+Qed.
+
+(* nobody holds the lock, a writer and a reader wait, the writer has been notified (writer preference) *)
+Example C18_ex_handoff :
+  exists s, reachable true s /\ g_exec (s_g s) = [] /\ g_ww (s_g s) = [(1, 1)] /\ g_wr (s_g s) = [(2, 0)] /\
+            step true 1 CRun (s_g s) (s_l s 1) <> None.
+Proof.
+  destruct (run true [B 0 (OLockRW Never); R 0; B 1 (OLockRW Never); R 1; B 2 (OLockRO Never); R 2; B 0 OUnlockRW; R 0] sys0) as [s|] eqn:E.
+  - exists s. split; [eapply run_reachable; [apply reach_init|exact E]|]. vm_compute in E. inversion E; subst. vm_compute.
+    repeat split; auto; discriminate.
+  - vm_compute in E. discriminate.
+Qed.
+
+(* a stuck state: thread 0 holds a read lock and is outside any call, thread 1 waits for the write lock; nothing is enabled *)
+Example C18_ex_stuck_behind_idle_holder :
+  exists s, reachable true s /\ g_ww (s_g s) = [(1, 0)] /\ l_act (s_l s 0) = AIdle /\ find 0 (g_exec (s_g s)) = Some (mkEnt 1 0) /\
+            step true 1 CRun (s_g s) (s_l s 1) = None /\ step true 1 CTimeout (s_g s) (s_l s 1) = None.
+Proof.
+  destruct (run true [B 0 (OLockRO Never); R 0; B 1 (OLockRW Never); R 1] sys0) as [s|] eqn:E.
+  - exists s. split; [eapply run_reachable; [apply reach_init|exact E]|]. vm_compute in E. inversion E; subst. vm_compute. auto 10.
+  - vm_compute in E. discriminate.
+Qed.
+
+(* the first waiting writer has been notified and has returned from Wait(); a reader in the same situation (no preference) *)
+Example C18_ex_woken_writer :
+  exists s, reachable true s /\ g_exec (s_g s) = [] /\ g_ww (s_g s) = [(1, 0); (2, 0)] /\ l_act (s_l s 1) = AWokeRW Never true.
+Proof.
+  destruct (run true [B 0 (OLockRW Never); R 0; B 1 (OLockRW Never); R 1; B 2 (OLockRW Timed); R 2; B 0 OUnlockRW; R 0; R 1] sys0) as [s|] eqn:E.
+  - exists s. split; [eapply run_reachable; [apply reach_init|exact E]|]. vm_compute in E. inversion E; subst. vm_compute. auto 10.
+  - vm_compute in E. discriminate.
+Qed.
+
+Example C18_ex_woken_reader :
+  exists s, reachable false s /\ g_exec (s_g s) = [] /\ g_ww (s_g s) = [(2, 0)] /\ l_act (s_l s 1) = AWokeRO Timed true.
+Proof.
+  destruct (run false [B 0 (OLockRW Never); R 0; B 1 (OLockRO Timed); R 1; B 2 (OLockRW Never); R 2; B 0 OUnlockRW; R 0; R 1] sys0) as [s|] eqn:E.
+  - exists s. split; [eapply run_reachable; [apply reach_init|exact E]|]. vm_compute in E. inversion E; subst. vm_compute. auto 10.
+  - vm_compute in E. discriminate.
+Qed.
+
+(* a thread in the middle of the upgrade path: giving up the second of two read locks / re-taking them after the inner call *)
+Example C18_ex_upgrade_frames :
+  exists s, reachable true s /\ l_stk (s_l s 0) = [FDrop 2 1 Never] /\ l_stk (s_l s 1) = [FRelock 1 0 STimedOut].
+Proof.
+  destruct (run true [B 0 (OLockRO Never); R 0; B 0 (OLockRO Never); R 0; B 1 (OLockRO Never); R 1; B 2 (OLockRO Never); R 2;
+                      B 1 (OLockRW Timed); R 1; R 1; R 1; T 1; R 1;
+                      B 0 (OLockRW Never); R 0; R 0] sys0) as [s|] eqn:E.
+  - exists s. split; [eapply run_reachable; [apply reach_init|exact E]|]. vm_compute in E. inversion E; subst. vm_compute. auto.
   - vm_compute in E. discriminate.
 Qed.
